@@ -75,7 +75,7 @@ let show_ev = function
    of the waker it was handed), each wake-up of that waker between polls becomes a fire operation of the outer model.  Worlds are recomputed from
    (scripts, history), the model being a pure function of them. ---- *)
 let rec drop_n n l = if n <= 0 then l else match l with [] -> [] | _ :: r -> drop_n (n - 1) r
-let nest_trace (kind: string) (scripts: step list list) (ops: op list) : string list =
+let nest_trace (selective: bool) (kind: string) (scripts: step list list) (ops: op list) : string list =
   let nleaf = List.length scripts in
   let half = nleaf / 2 in
   let base c = if c = 0 then 0 else half in
@@ -86,9 +86,9 @@ let nest_trace (kind: string) (scripts: step list list) (ops: op list) : string 
       | HSelf -> Some HSelf
       | HOf (l, k) -> let l = int_of_nat l in if inner_of l = c then Some (HOf (nat_of_int (l - base c), k)) else None) stp.fires } in
   let leaves c = List.map (List.map (localise c)) (if c = 0 then List.filteri (fun i _ -> i < half) scripts else List.filteri (fun i _ -> i >= half) scripts) in
-  let run_level scs hist = if kind = "nest_mm" then tr (merge_world true scs hist) else tr (join_world true false false scs hist) in
+  let run_level scs hist = if kind = "nest_mm" then tr (merge_world selective scs hist) else tr (join_world selective false false scs hist) in
   (* the outer level of nest_jt is the two-argument trait method a.join(b): the tuple algorithm *)
-  let run_outer scs hist = if kind = "nest_jt" then tr (join_world true false true scs hist) else run_level scs hist in
+  let run_outer scs hist = if kind = "nest_jt" then tr (join_world selective false true scs hist) else run_level scs hist in
   let ihist = [| []; [] |] and itr = [| 0; 0 |] and ipolled = [| false; false |] in
   let oscs = [| []; [] |] and ohist = ref [] and otr = ref 0 in
   let out = ref [] in
@@ -96,22 +96,31 @@ let nest_trace (kind: string) (scripts: step list list) (ops: op list) : string 
   let to_ans o = (match o with OVals _ | OOk _ -> AReady (ROk O) | OErr e -> AReady (RErr e) | OSome (_, v :: _) -> AItem v | OSome (_, []) -> AItem O | ONone -> AEnd | OErrs _ -> AReady (RErr O)) in
   (* the outer model's reaction to one wake-up of the waker child c holds: a fire operation between polls *)
   let outer_fire c =
+    if selective then begin
     ohist := !ohist @ [OFire (nat_of_int c, O)];
     let t = run_outer [oscs.(0); oscs.(1)] !ohist in
     let d = drop_n !otr t in otr := List.length t;
-    List.iter (fun e -> match e with EW p -> emit (Printf.sprintf "W%d" (int_of_nat p)) | _ -> ()) d in
+    List.iter (fun e -> match e with EW p -> emit (Printf.sprintf "W%d" (int_of_nat p)) | _ -> ()) d end in
   let results = ref [] in
   let dropped = ref false in
+  (* non-selective build: an inner combinator numbers the caller's wakers it has seen itself; pmap.(c) translates its numbers into the outer ones *)
+  let pmap = [| Hashtbl.create 8; Hashtbl.create 8 |] and last_opid = [| -1; -1 |] in
+  let tr_pid c p = (match Hashtbl.find_opt pmap.(c) (int_of_nat p) with Some q -> q | None -> int_of_nat p) in
   List.iter (fun o -> match o with
     | OPollFresh | OPollSame ->
         (* what each inner combinator would answer if it were polled now *)
+        (* which parent waker does this poll of the outer combinator carry?  (none: the poll is ignored, the combinator has finished or was dropped) *)
+        let opid = (match drop_n !otr (run_outer [oscs.(0); oscs.(1)] (!ohist @ [o])) with EB p :: _ -> int_of_nat p | _ -> -1) in
         let spec = Array.init 2 (fun c ->
-          let pop = if ipolled.(c) then OPollSame else OPollFresh in
+          (* selective: the inner combinator is always handed the same sub-waker of the outer one; otherwise it is handed the caller's waker, which is
+             new to it unless it is the one of its own last poll *)
+          let pop = if selective then (if ipolled.(c) then OPollSame else OPollFresh)
+                    else (if ipolled.(c) && last_opid.(c) = opid then OPollSame else OPollFresh) in
           let t = run_level (leaves c) (ihist.(c) @ [pop]) in
           let d = drop_n itr.(c) t in
           let nw = List.length (List.filter (fun e -> match e with EW _ -> true | _ -> false) d) in
           let a = (match List.rev d with EEndR r :: _ -> to_ans r | EEndX :: _ -> APanic | _ -> APend) in
-          (pop, t, d, { fires = List.init nw (fun _ -> HSelf); answer = a })) in
+          (pop, t, d, { fires = (if selective then List.init nw (fun _ -> HSelf) else []); answer = a })) in
         ohist := !ohist @ [o];
         let t = run_outer [oscs.(0) @ [let (_, _, _, s) = spec.(0) in s]; oscs.(1) @ [let (_, _, _, s) = spec.(1) in s]] !ohist in
         let d = drop_n !otr t in otr := List.length t;
@@ -124,6 +133,8 @@ let nest_trace (kind: string) (scripts: step list list) (ops: op list) : string 
                let c = int_of_nat c in
                let (pop, it, idelta, stp) = spec.(c) in
                ihist.(c) <- ihist.(c) @ [pop]; itr.(c) <- List.length it; ipolled.(c) <- true; oscs.(c) <- oscs.(c) @ [stp];
+               last_opid.(c) <- opid;
+               (match idelta with EB pin :: _ -> Hashtbl.replace pmap.(c) (int_of_nat pin) opid | _ -> ());
                (* the outer model's events for the self-wakes of this step: groups EF c h [EW p] *)
                let rec groups evs acc = (match evs with
                  | EF _ :: EW p :: r2 -> groups r2 (Some p :: acc)
@@ -132,8 +143,10 @@ let nest_trace (kind: string) (scripts: step list list) (ops: op list) : string 
                let (gs, r') = groups r [] in
                let gs = ref gs in
                List.iter (fun e -> match e with
-                 | EC (j, _) -> let l = base c + int_of_nat j in emit (Printf.sprintf "c%d:S%d" l l)
+                 | EC (j, WSub _) -> let l = base c + int_of_nat j in emit (Printf.sprintf "c%d:S%d" l l)
+                 | EC (j, WPar p) -> emit (Printf.sprintf "c%d:P%d" (base c + int_of_nat j) (tr_pid c p))
                  | EF (j, k) -> emit (Printf.sprintf "f%d.%d" (base c + int_of_nat j) (int_of_nat k))
+                 | EW p when not selective -> emit (Printf.sprintf "W%d" (tr_pid c p))
                  | EW _ -> (match !gs with Some p :: g -> gs := g; emit (Printf.sprintf "W%d" (int_of_nat p)) | None :: g -> gs := g | [] -> ())
                  | EAns a -> emit (show_ans a)
                  | EDc j -> emit (Printf.sprintf "D%d" (base c + int_of_nat j))
@@ -160,6 +173,7 @@ let nest_trace (kind: string) (scripts: step list list) (ops: op list) : string 
         List.iter (fun e -> match e with
           | EO -> emit "o"
           | EF (j, k) -> emit (Printf.sprintf "f%d.%d" (base c + int_of_nat j) (int_of_nat k))
+          | EW p when not selective -> emit (Printf.sprintf "W%d" (tr_pid c p))
           | EW _ -> outer_fire c
           | _ -> ()) d
     | ODrop -> emit "d"; dropped := true; ohist := !ohist @ [ODrop]; otr := List.length (run_outer [oscs.(0); oscs.(1)] !ohist);
@@ -201,7 +215,7 @@ let () =
         (* the keys of members born through extend are not observable: their K tokens are printed as a bare `k` (the i-th EK belongs to the i-th insert) *)
         let nk = ref 0 in
         let toks = List.map (fun e -> match e with EK _ -> let i = !nk in incr nk; if Hashtbl.mem ext_born i then "k" else show_ev e | _ -> show_ev e) tr in
-        let toks = if comb = "nest_jj" || comb = "nest_mm" || comb = "nest_jt" then nest_trace comb scripts ops else toks in
+        let toks = if comb = "nest_jj" || comb = "nest_mm" || comb = "nest_jt" then nest_trace selective comb scripts ops else toks in
         print_endline (String.concat " " (id :: toks))
       | _ -> failwith "case"
     end
